@@ -289,8 +289,30 @@ def rule_at(rep, d, fn, symmap, noexc=False):
     nonneg = {"S", "idx"} | {p.get("name") for p in ir.params(fn)}
     goal = Lin({"S": 1, pname: -1, "": -1})
 
+    noret = set()
+    for f_ in ir.functions(d):
+        if ir.body(f_) is not None and "xspan" in (d.where(f_) or ""):
+            attrs = [c_.get("kind") for c_ in f_.get("inner", []) if isinstance(c_, dict)]
+            if any(k_ and k_.endswith("NoReturnAttr") for k_ in attrs):
+                noret.add(f_.get("name"))
+            else:
+                # a helper every path of which throws / terminates
+                try:
+                    ps_ = flow.function_paths(f_, with_ctor_inits=False, may_throw=lambda n: False)
+                except Exception:
+                    ps_ = []
+                if ps_ and all(p_[-1][0] in ("escape", "throw") or any(st_[0] == "ev" and st_[1].get("kind") == "CallExpr" and ir.sx(st_[1])[0] == "call" and
+                                                                     ir.show(ir.sx(st_[1])[1]).split("::")[-1] in ("terminate", "abort") for st_ in p_) for p_ in ps_):
+                    noret.add(f_.get("name"))
+
     def is_stop(n):
-        return n.get("kind") == "CallExpr" and ir.sx(n)[0] == "call" and ir.show(ir.sx(n)[1]).split("::")[-1] in ("terminate", "abort", "_Exit", "quick_exit")
+        if n.get("kind") not in ("CallExpr", "CXXMemberCallExpr"):
+            return False
+        t_ = ir.sx(n)
+        if t_[0] != "call":
+            return False
+        nm_ = (t_[1][2] if t_[1][0] == "mem" else ir.show(t_[1])).split("::")[-1]
+        return nm_ in ("terminate", "abort", "_Exit", "quick_exit") or nm_ in noret
     paths = flow.function_paths(fn, with_ctor_inits=False, may_throw=lambda n: False)
     n_ret = n_rej = 0
     bad = None
@@ -346,7 +368,13 @@ def rule_at(rep, d, fn, symmap, noexc=False):
         return
     rep.holds("C16.at", label, "bounds test", where=where, detail="%d returning path(s) imply %s < size(); %d rejecting path(s)%s" % (n_ret, pname, n_rej, " throw %s" % sorted(set(thrown)) if thrown else ""))
     if not noexc:
-        thr_all = [ir.qtype(ir.ekids(x)[0]) for x in ir.walk_expr(ir.body(fn)) if x.get("kind") == "CXXThrowExpr" and ir.ekids(x)]
+        bodies_ = [ir.body(fn)]
+        for x in ir.walk_expr(ir.body(fn)):
+            if is_stop(x):
+                t_ = ir.sx(x)
+                nm_ = (t_[1][2] if t_[1][0] == "mem" else ir.show(t_[1])).split("::")[-1]
+                bodies_ += [ir.body(f_) for f_ in ir.functions(d, nm_) if ir.body(f_) is not None and "xspan" in (d.where(f_) or "")]
+        thr_all = [ir.qtype(ir.ekids(x)[0]) for b_ in bodies_ for x in ir.walk_expr(b_) if x.get("kind") == "CXXThrowExpr" and ir.ekids(x)]
         if thr_all and not any("out_of_range" in t for t in thr_all):
             rep.violates("C16.at", label, "exception type", where=where, detail="throws %s, not std::out_of_range" % thr_all)
         elif not thr_all:
@@ -494,7 +522,7 @@ def rule_shape(rep, d, methods, ctors, symmap):
                 ok = sa == "%s.data()" % nm and sb == "%s.size()" % nm
                 why = "converting constructor must store (other.data(), other.size())"
             else:
-                ok = sa in (nm, "%s.data()" % nm) and sb == "N"
+                ok = sa in (nm, "%s.data()" % nm, "data(%s)" % nm, "detail::data(%s)" % nm, "&%s[0]" % nm) and sb in ("N", "size(%s)" % nm, "detail::size(%s)" % nm, "%s.size()" % nm)
                 why = "array constructor must store (arr[.data()], N)"
             (rep.holds if ok else rep.violates)("C16.shape", label, "storage initialiser", where=d.where(c), detail=got if ok else why + "; found " + got)
 
